@@ -397,6 +397,96 @@ example : fsOpen .httpDirFS exTree [S "public"] (S "/a\x00.txt") = .invalid ∧
     fsOpen .httpMapFS exTree [S "public"] (S "/a\x00.txt") = .notExist ∧
     fsOpen .httpDirFS exTree [S "public"] (S "/a.txt/\x00") = .notExist := by decide +kernel
 
+/-! ## the default file system narrowed step by step (round 6) -/
+
+theorem joinSep_append (A B : List Str) (hA : A ≠ []) (hB : B ≠ []) :
+    joinSep '/' (A ++ B) = joinSep '/' A ++ '/' :: joinSep '/' B := by
+  induction A with
+  | nil => exact absurd rfl hA
+  | cons a r ih =>
+    cases r with
+    | nil =>
+      cases B with
+      | nil => exact absurd rfl hB
+      | cons b rb => simp [joinSep]
+    | cons a2 r2 =>
+      have := ih (by simp)
+      simp only [List.cons_append] at this ⊢
+      simp [joinSep, this]
+
+theorem normal_workName : Normal workName := by decide
+
+/-- what `dirRootSegs` returns consists of real elements: a root derived from the default file
+    system is a directory reached from the work directory without `..` left in it -/
+theorem dirRootSegs_normal (cwd : List Str) (dir : Str) (d : List Str) (h : dirRootSegs cwd dir = some d) :
+    ∀ s ∈ d, Normal s := by
+  unfold dirRootSegs at h
+  simp only at h
+  have key : ∀ p : Str, (match segsOf (clean ('/' :: p)) with
+      | w :: rest => if w = workName then some rest else none
+      | [] => none) = some d → ∀ s ∈ d, Normal s := by
+    intro p hp
+    have hn := (clean_rooted_no_dotdot p).2.2.1
+    split at hp
+    · rename_i w rest heq
+      split at hp
+      · cases hp
+        intro s hs
+        exact hn s (by rw [heq]; exact List.mem_cons_of_mem _ hs)
+      · cases hp
+    · cases hp
+  by_cases hr : isRooted dir = true
+  · simp only [hr, if_true] at h
+    cases dir with
+    | nil => simp [isRooted] at hr
+    | cons c p =>
+      have hc : c = '/' := by simpa [isRooted] using hr
+      subst hc
+      exact key p h
+  · simp only [hr] at h
+    exact key _ h
+
+/-- **C16_derive_relative** — a relative root of real elements taken from a default file system
+    rooted at `cwd` lands at `cwd ++ F`: below the directory the file system is rooted at, not
+    below wherever the process started. -/
+theorem C16_derive_relative (cwd F : List Str) (hcwd : ∀ s ∈ cwd, Normal s) (hF : ∀ s ∈ F, Normal s)
+    (hne : F ≠ []) : dirRootSegs cwd (joinSep '/' F) = some (cwd ++ F) := by
+  have hrel : isRooted (joinSep '/' F) = false := by
+    have := isRooted_render false F hF
+    simpa [render, hne] using this
+  have hall : ∀ s ∈ (workName :: cwd) ++ F, Normal s := by
+    intro s hs
+    rcases List.mem_append.mp hs with h | h
+    · rcases List.mem_cons.mp h with h | h
+      · rw [h]; exact normal_workName
+      · exact hcwd s h
+    · exact hF s h
+  unfold dirRootSegs
+  simp only [hrel, Bool.false_eq_true, if_false]
+  rw [List.cons_append, ← joinSep_append (workName :: cwd) F (by simp) hne]
+  have hc := clean_rooted_join ((workName :: cwd) ++ F) hall (by simp) false
+  simp only [Bool.false_eq_true, if_false, List.nil_append] at hc
+  rw [hc]
+  have hs := segsOf_render true ((workName :: cwd) ++ F) hall (.inr rfl)
+  simp only [render, if_true] at hs
+  rw [hs]
+  simp
+
+/-- **C16_derive_second_level** — `e.Filesystem = MustSubFS(e.Filesystem, r1)` followed by
+    `e.Static(prefix, r2)` with a relative `r2` of real elements: the served root is `r2` below the
+    directory `r1` denotes — for every `r1` (absolute, relative, with `..`) and every working directory. -/
+theorem C16_derive_second_level (cwd : List Str) (r1 : Str) (d F : List Str)
+    (h1 : dirRootSegs cwd r1 = some d) (hF : ∀ s ∈ F, Normal s) (hne : F ≠ []) :
+    deriveRoots cwd [r1, joinSep '/' F] = some (d ++ F) := by
+  simp [deriveRoots, h1, C16_derive_relative d F (dirRootSegs_normal cwd r1 d h1) hF hne]
+
+example : deriveRoots [] ["public".toList, "static".toList] = some ["public".toList, "static".toList] ∧
+    deriveRoots ["public".toList] ["..".toList, "public".toList] = some ["public".toList] ∧
+    deriveRoots [] ["/W".toList, "public".toList] = some ["public".toList] ∧
+    deriveRoots [] ["public".toList, ".".toList, "static".toList] = some ["public".toList, "static".toList] ∧
+    deriveRoots [] ["/etc".toList, "x".toList] = none := by decide +kernel
+
+
 /-! ## non-vacuity -/
 
 section Examples
